@@ -82,4 +82,3 @@ package p2p
 // DefaultRegistry is initialised with it (environment: package initialisation has run)
 //@ func (r *registry) AddErrorCount(chain vaa.ChainID, delta uint64)
 //@   assume-contract
-//@   requires r != nil
